@@ -7,10 +7,18 @@
      faithful model: a memo hit on a label-binding expression skips the binding (known finding
      C06-MEMO-LABEL); the witness also shows the equivalence restored when such results are not
      memoised.
-     For the remaining grammars the statement, the Debug / Statistics options (outside
-     the model) and the bound on evaluated expressions are decided by execution (DESIGN.md). *)
+   - "Memoize bounds the work": in the model of the standard parser (no -optimize-parser, no left-recursion
+     support), with Memoize(true) every evaluated expression stores exactly one result in the memo table and a
+     hit evaluates nothing, so the number of evaluated expressions IS the number of stored results
+     (C06_evaluations_are_stored_results, every grammar, every input).  When no (offset, expression) pair is stored
+     twice the count is therefore at most |offsets| x |expressions| (C06_linear_bound_partial).  What is missing
+     for the full statement: that a grammar without left recursion never stores a pair twice (no re-entry at one
+     offset), and that offsets stay within 0..|input|; both are decided on the implementation by the C06 check
+     (evaluated expressions <= expressions x (|input| + 1), each action at most once per start position).
+     For the remaining grammars the statement and the Debug / Statistics options (outside
+     the model) are decided by execution (DESIGN.md). *)
 From PV Require Import Lib.Base Lib.Utf8 Syntax.RGrammar Syntax.Code Model.PState Spec.Pos Model.Runtime
-  Spec.Ref Spec.RefParse Proofs.Determinacy Proofs.MemoRefuted.
+  Spec.Ref Spec.RefParse Proofs.Determinacy Proofs.MemoRefuted Proofs.MemoCount.
 
 Theorem C06_outcome_does_not_depend_on_history :
   forall (c : rdata), o_maxexpr (rO c) = 0%N ->
@@ -50,3 +58,45 @@ Theorem C06_observation_memoize_changes_expected_set :
   both_expected <> only_x.
 Proof. exact (conj exp_spec (conj exp_default (conj exp_memoize (conj exp_memoize_repaired exp_differ)))). Qed.
 Print Assumptions C06_observation_memoize_changes_expected_set.
+
+(* ---- Memoize bounds the work ---- *)
+Theorem C06_evaluations_are_stored_results : forall (c : cfg),
+  o_memoize (cO c) = true -> t_optimize (cT c) = false -> t_leftrec (cT c) = false ->
+  q_memo_nocharge (cQ c) = true -> q_memo_label (cQ c) = true -> q_memo_expected (cQ c) = true ->
+  o_maxexpr (cO c) = 0%N ->
+  forall fuel v errors final, did_not_panic c fuel ->
+    parse c fuel = Returned v errors final -> exprCnt final = stored (memo final).
+Proof. exact evaluations_are_stored_results. Qed.
+Print Assumptions C06_evaluations_are_stored_results.
+
+(* with Recover(false) a panic is not a return, so the hypothesis on panics goes away *)
+Theorem C06_evaluations_are_stored_results_without_recover : forall (c : cfg),
+  o_memoize (cO c) = true -> t_optimize (cT c) = false -> t_leftrec (cT c) = false ->
+  q_memo_nocharge (cQ c) = true -> q_memo_label (cQ c) = true -> q_memo_expected (cQ c) = true ->
+  o_maxexpr (cO c) = 0%N -> o_recover (cO c) = false ->
+  forall fuel v errors final,
+    parse c fuel = Returned v errors final -> exprCnt final = stored (memo final).
+Proof. intros c H1 H2 H3 H4 H5 H6 H7 H8 fuel v errors final. exact (evaluations_are_stored_results_without_recover c H1 H2 H3 H4 H5 H6 H7 fuel v errors final H8). Qed.
+Print Assumptions C06_evaluations_are_stored_results_without_recover.
+
+Theorem C06_linear_bound_partial : forall (c : cfg),
+  o_memoize (cO c) = true -> t_optimize (cT c) = false -> t_leftrec (cT c) = false ->
+  q_memo_nocharge (cQ c) = true -> q_memo_label (cQ c) = true -> q_memo_expected (cQ c) = true ->
+  o_maxexpr (cO c) = 0%N ->
+  forall fuel v errors final (offs : list nat) (ids : list nid), did_not_panic c fuel ->
+    parse c fuel = Returned v errors final ->
+    NoDup (expr_keys (memo final)) ->
+    incl (expr_keys (memo final)) (list_prod offs ids) ->
+    (exprCnt final <= N.of_nat (length offs) * N.of_nat (length ids))%N.
+Proof. exact linear_bound_partial. Qed.
+Print Assumptions C06_linear_bound_partial.
+
+(* the hypotheses are met by the grammar of the memo witness on "ab": 20 evaluations, 20 distinct pairs among
+   3 offsets x 15 expressions *)
+Example C06_bound_hypotheses_inhabited :
+  did_not_panic (cfg_memo faithful true) 100 /\
+  exists v errs final, parse (cfg_memo faithful true) 100 = Returned v errs final /\
+    NoDup (expr_keys (memo final)) /\
+    incl (expr_keys (memo final)) (list_prod (seq 0 3) example_ids) /\
+    exprCnt final = 20%N.
+Proof. exact (conj example_no_panic example_bound_hypotheses). Qed.
